@@ -318,6 +318,13 @@ func genDec(t *rapid.T, ctx core.Ctx, label string) core.Dec {
 		} else {
 			d.Exp = ctx.Emax + int32(rapid.IntRange(0, 40).Draw(t, label+"b"))
 		}
+		// stay well-formed: exponent and adjusted exponent within the package limits
+		if nd := int32(len(d.Coeff)); d.Exp > gen.Limit-nd+1 {
+			d.Exp = gen.Limit - nd + 1
+		}
+		if d.Exp < -gen.Limit {
+			d.Exp = -gen.Limit
+		}
 		return d
 	default:
 		return gen.Finite(t, ctx, label)
